@@ -23,6 +23,7 @@ Inductive dkind :=
 | DTrunc (c s seed n : N).       (* an honest datagram cut to n bytes *)
 Inductive uop :=
 | ODgram (client cip : N) (k : dkind)
+| OStray (client : N) (v6 : bool) (sport len seed : N)   (* a datagram to the client's NAT socket from another sender on loopback *)
 | OExpireAll.                    (* idle for longer than the NAT timeout: every association expires *)
 
 Record robs := { r_status : N; r_from : bytes; r_body : N * N; r_tb : Z; r_cb : Z }.   (* reply seen by the client + its report *)
@@ -108,6 +109,27 @@ Definition dgram_of (e : env) (i : N) (k : dkind) : env * list wbyte :=
    fails with EMSGSIZE and is reported ERR_WRITE (12) with 0 bytes *)
 Definition max_udp (v6client : bool) : Z := if v6client then 65527%Z else 65507%Z.
 
+Definition client_is_v6 (client : N) : bool := client =? 5.   (* the harness' fifth client socket is on ::1 *)
+
+(* one datagram arriving at the association's socket [sock] from [src]:[sport] *)
+Definition one_reply (e : env) (st : ustate) (v6client : bool) (sock : N) (src : ip) (sport : N) (sid : N) (saltseed : N) (len seed : N)
+  : env * option robs :=
+  let key := match find (fun kv => N.eqb (as_sock (snd kv)) sock) (u_nat st) with Some (_, a) => as_key a | None => mk_key 0 0 end in
+  let room := Z.to_nat (buf_size - (Z.of_nat (salt_size (k_cipher key)) + max_addr_len)) in
+  let body := firstn room (gb len seed) in
+  let salt := raws (gb (N.of_nat (salt_size (k_cipher key))) saltseed) in
+  let '(e1, res) := udp_reply e st sock src sport body salt sid in
+  match res with
+  | Ok (ReplySent _ dg stc tb cb) =>
+      let ab := match reply_addr src sport with Some x => x | None => [] end in
+      if (max_udp v6client <? cb)%Z
+      then (e1, Some {| r_status := 12; r_from := []; r_body := (0, cksum []); r_tb := tb; r_cb := 0 |})
+      else (e1, Some {| r_status := stc; r_from := ab; r_body := (N.of_nat (length body), cksum body); r_tb := tb; r_cb := cb |})
+  | Ok (ReplyDropped stc tb) =>
+      (e1, Some {| r_status := stc; r_from := []; r_body := (0, cksum []); r_tb := tb; r_cb := 0 |})
+  | _ => (e1, None)
+  end.
+
 Fixpoint replies_of (e : env) (st : ustate) (v6client : bool) (sock : N) (akind tport : N) (i j : N) (rs : list (N * N)) : env * list robs :=
   match rs with
   | [] => (e, [])
@@ -150,6 +172,17 @@ Fixpoint run_ops (e : env) (validate : bool) (st : ustate) (i : N) (ops : list u
         | _, _ => (e1, [])
         end in
       {| d_sent := sent; d_new := nw; d_report := rep; d_replies := reps; d_removed := 0 |} :: run_ops e2 validate st' (i + 1) r
+  | OStray client v6 sport len seed :: r =>
+      (* a sender the client never addressed writes to the client's NAT socket: the datagram goes to
+         that client (and, in the harness, to nobody else) with the sender's address in front *)
+      match alookup N.eqb client (u_nat st) with
+      | None => {| d_sent := None; d_new := None; d_report := None; d_replies := []; d_removed := 0 |} :: run_ops e validate st (i + 1) r
+      | Some a =>
+          let src := if v6 then V16 1 else V4 (v4 127 0 0 1) in
+          let '(e1, ro) := one_reply e st (client_is_v6 client) (as_sock a) src sport (i * 1000 + 1) (i * 77) len seed in
+          {| d_sent := None; d_new := None; d_report := None;
+             d_replies := match ro with Some x => [x] | None => [] end; d_removed := 0 |} :: run_ops e1 validate st (i + 1) r
+      end
   | OExpireAll :: r =>
       {| d_sent := None; d_new := None; d_report := None; d_replies := []; d_removed := N.of_nat (length (u_nat st)) |}
       :: run_ops e validate {| u_cl := u_cl st; u_nat := []; u_next := u_next st |} (i + 1) r
